@@ -115,7 +115,7 @@ def strategy(tier):
 
 
 def budget(tier):
-    return 3000 if tier == "quick" else 30000
+    return 3000 if tier == "quick" else 200000
 
 
 def classify(case):
